@@ -194,9 +194,13 @@ Qed.
 Lemma convex_conj_transfer pq pr : fac_transfer pq pr -> fac_transfer (prox_convex_conj pq) (prox_convex_conj pr).
 Proof.
   intros H s x. unfold prox_convex_conj. destruct s as [sg|v|a b]; cbn [sigQR]; try reflexivity.
-  replace (SScal (ndiv none_ (Q2R sg))) with (sigQR (SScal (ndiv none_ sg))) by (cbn [sigQR]; q2r; reflexivity).
-  replace (vscal (ndiv none_ (Q2R sg)) (QR x)) with (QR (vscal (ndiv none_ sg) x)) by (rewrite QR_vscal; q2r; reflexivity).
-  rewrite <- H. destruct (pq _ _); cbn [resQR rmap]; [|reflexivity]. rewrite QR_vsub, QR_vscal. reflexivity.
+  - replace (SScal (ndiv none_ (Q2R sg))) with (sigQR (SScal (ndiv none_ sg))) by (cbn [sigQR]; q2r; reflexivity).
+    replace (vscal (ndiv none_ (Q2R sg)) (QR x)) with (QR (vscal (ndiv none_ sg) x)) by (rewrite QR_vscal; q2r; reflexivity).
+    rewrite <- H. destruct (pq _ _); cbn [resQR rmap]; [|reflexivity]. rewrite QR_vsub, QR_vscal. reflexivity.
+  - assert (Ei : map (fun sg => ndiv none_ sg) (QR v) = QR (map (fun sg => ndiv none_ sg) v)).
+    { symmetry. apply QR_map. intros a. q2r. reflexivity. }
+    rewrite Ei. change (SVec (QR (map (fun sg => ndiv none_ sg) v))) with (sigQR (SVec (map (fun sg => ndiv none_ sg) v))).
+    rewrite <- QR_vmul, <- H. destruct (pq _ _); cbn [resQR rmap]; [|reflexivity]. rewrite QR_vsub, QR_vmul. reflexivity.
 Qed.
 Lemma combine_transfer n1 p1 p2 r1 r2 : fac_transfer p1 r1 -> fac_transfer p2 r2 ->
   fac_transfer (prox_combine n1 p1 p2) (prox_combine n1 r1 r2).
